@@ -387,6 +387,16 @@ def resolve_helper(R, f, call):
                 h = R.funcs[q]
                 skip = 0 if h.is_static else 1
                 return h, skip
+        # other.m(...) inside a method of class K where m is a (private) method that only K's hierarchy defines: `other` is a K
+        if cq is None and f.cls and fn.attr.startswith("_") and not fn.attr.startswith("__"):
+            kq = f"{f.mod}.{f.cls}"
+            q = R.lookup_method(kq, fn.attr)
+            if q in R.funcs:
+                owners = {g.class_q for g in R.funcs.values() if g.name == fn.attr and g.cls}
+                fam = set(R.mro(kq)) | set(R.subclasses(kq))
+                if owners and owners <= fam:
+                    h = R.funcs[q]
+                    return h, (0 if h.is_static else 1)
     return None, 0
 
 
